@@ -217,8 +217,11 @@ def find(
                     os.path.dirname(state._get_realpath(e["file"])),
                 )
                 if include_file:
-                    state.insert_file(include_file)
-                    state.associate(include_file, file_platform)
+                    # A header that declared "#pragma once" earlier in this
+                    # translation unit is not processed again.
+                    if file_platform.process_include(include_file):
+                        state.insert_file(include_file)
+                        state.associate(include_file, file_platform)
                 else:
                     log.warning(
                         f"{e['file']}: forced include '{include}' not found",
